@@ -74,6 +74,11 @@ func (e *Exec) intrinsic(st *State, fn *ssa.Function, args []Value, callSite ssa
 			n := int(e.argInt(args[1]))
 			nm := e.argStr(args[0])
 			if st.npre < len(st.prefix) {
+				if st.npre < len(e.cfg.SplitDims) && e.cfg.SplitDims[st.npre] < n {
+					// the case split registered for this harness is narrower than the choice it feeds:
+					// values would silently be skipped
+					e.event("split", fmt.Sprintf("split dimension %d has size %d but vfChoice(%q) has %d values", st.npre, e.cfg.SplitDims[st.npre], nm, n))
+				}
 				k := st.prefix[st.npre]
 				st.npre++
 				if k >= n {
